@@ -54,6 +54,15 @@ class Rule:
 
     def fail(self, file, function, line, construct, message, witness=None, desc=None):
         self.obligations += 1
+        # a second construct of the same kind in the same function gets its own key (#2, #3, ...)
+        base = construct
+        n = sum(1 for f in self.findings if f.file == file and f.function == function and
+                (f.construct == base or f.construct.startswith(base + " #")))
+        if n:
+            if any(f.file == file and f.function == function and f.line == line and f.construct.split(" #")[0] == base for f in self.findings):
+                self.obligations -= 1
+                return  # same construct reported twice (e.g. reached along two paths)
+            construct = "%s #%d" % (base, n + 1)
         self.findings.append(Finding(self.id, file, function, line, construct, message, witness))
         if desc is not None:
             self.instances.append(desc)
@@ -129,6 +138,13 @@ def run_property(prop_id, module, tier="quick", seed=0, root=None, quiet=False, 
         say("KNOWN-FINDING: property=%s %s [%s]" % (prop_id, k.get("what_fails", f.message), f.key))
 
     replay_dir = os.path.join(VERIF, "out")
+    if write_evidence and os.path.isdir(replay_dir):
+        for fn in os.listdir(replay_dir):
+            if fn.startswith(prop_id + "-"):
+                try:
+                    os.unlink(os.path.join(replay_dir, fn))
+                except OSError:
+                    pass
     if violations:
         os.makedirs(replay_dir, exist_ok=True)
     for i, f in enumerate(violations):
